@@ -11,11 +11,11 @@ import NoulithModel.Impl.PatternStmt
 namespace Noulith.C12
 
 /-- write `v` at path `ixs` of variable `x`; the variable's new value must have its declared type -/
-def specUpdate (e : Env) (x : Nat) (ixs : List Val) (v : Val) : Option Env :=
+def specUpdate (e : Env) (x : Nat) (ixs : List Ix) (v : Val) : Option Env :=
   match e.get? x with
   | none => none
   | some c =>
-    match setIndex c.val ixs (some v) with
+    match setIndex c.val ixs (some v) true with
     | .ok nv => if isType c.ty nv = .ok true then some (e.set x nv) else none
     | _ => none
 
@@ -23,7 +23,7 @@ mutual
 /-- the variables (with index paths) an `every` statement writes, left to right; `none` when the
 pattern has a form `every` does not accept.  `under`: is `_` accepted (it is by `every p = v`, it
 is not by `every p op= v`). -/
-def targets (under : Bool) : Pat → Option (List (Nat × List Val))
+def targets (under : Bool) : Pat → Option (List (Nat × List Ix))
   | .underscore => if under then some [] else none
   | .ident x ixs => some [(x, ixs)]
   | .seq ps _ => targetsAll under ps
@@ -32,7 +32,7 @@ def targets (under : Bool) : Pat → Option (List (Nat × List Val))
     | some ta, some tb => some (ta ++ tb)
     | _, _ => none
   | _ => none
-def targetsAll (under : Bool) : List Pat → Option (List (Nat × List Val))
+def targetsAll (under : Bool) : List Pat → Option (List (Nat × List Ix))
   | [] => some []
   | p :: ps =>
     match targets under p, targetsAll under ps with
@@ -40,7 +40,7 @@ def targetsAll (under : Bool) : List Pat → Option (List (Nat × List Val))
     | _, _ => none
 end
 
-def foldUpdate (f : Env → Nat × List Val → Option Env) : Env → List (Nat × List Val) → Option Env
+def foldUpdate (f : Env → Nat × List Ix → Option Env) : Env → List (Nat × List Ix) → Option Env
   | e, [] => some e
   | e, t :: ts =>
     match f e t with
@@ -70,26 +70,6 @@ def opLhsOkAll : List Pat → Bool
      | q => opLhsOk q) && opLhsOkAll ps
 end
 
-/-- `every p op= v` reaches into lists and dicts only (the interpreter has no element update for
-vectors, bytes and strings there; it raises) -/
-def everyPathOk : Val → List Val → Bool
-  | _, [] => true
-  | v, i :: rest =>
-    match v with
-    | .list xs =>
-      (match pyIndex xs.length i with
-       | some k => (match xs[k]? with | some x => everyPathOk x rest | none => false)
-       | none => false)
-    | .stream xs =>
-      (match pyIndex xs.length i with
-       | some k => (match xs[k]? with | some x => everyPathOk x rest | none => false)
-       | none => false)
-    | .dict ks vs =>
-      (match dictFind i ks with
-       | some k => (match vs[k]? with | some x => everyPathOk x rest | none => false)
-       | none => false)
-    | _ => false
-
 /-- the typed-store meaning of a statement: the new environment, or `none` = the statement raises -/
 def specStmt (e : Env) : Stmt → Option Env
   | .assign p v => specAssign e p none v
@@ -109,14 +89,13 @@ def specStmt (e : Env) : Stmt → Option Env
   | .opAssignEvery p op v =>
     match targets false p with
     | some ts =>
+      -- every element the path reaches is replaced by `op(element, v)`; the variable's new value
+      -- must have its declared type
       foldUpdate (fun e t =>
         match e.get? t.1 with
         | some c =>
-          (match (if everyPathOk c.val t.2 then getIndex c.val t.2 else .throw) with
-           | .ok old =>
-             (match applyOp op old v with
-              | .ok nv => specUpdate e t.1 t.2 nv
-              | _ => none)
+          (match modifyIndex (fun x => applyOp op x v) c.val t.2 with
+           | .ok nv => if isType c.ty nv = .ok true then some (e.set t.1 nv) else none
            | _ => none)
         | none => none) e ts
     | none => none
